@@ -24,13 +24,13 @@ Fixpoint cleanup (s : list N) : list N :=
     else c :: cleanup r
   end.
 
-(* pass B1: every `{digits}` or `{digits,digits}` becomes `<<<<...>>>>` (leftmost, not overlapping) *)
+(* what a valid repetition quantifier looks like: `{digits}` or `{digits,digits}` *)
 Fixpoint take_digits (s : list N) : list N * list N :=
   match s with
   | c :: r => if is_09 c then let (d, rest) := take_digits r in (c :: d, rest) else ([], s)
   | [] => ([], [])
   end.
-(* s pstarts right after the `{`: Some (inner, rest after `}`) *)
+(* s begins right after the `{`: Some (inner, rest after `}`) *)
 Definition quantifier_body (s : list N) : option (list N * list N) :=
   let (d1, r1) := take_digits s in
   match d1 with
@@ -47,9 +47,11 @@ Definition quantifier_body (s : list N) : option (list N * list N) :=
     | _ => None
     end
   end.
-Definition LT4 : list N := [60; 60; 60; 60].
-Definition GT4 : list N := [62; 62; 62; 62].
-Fixpoint mark_quantifiers (fuel : nat) (s : list N) : list N :=
+(* pass B: every `{digits}` or `{digits,digits}` (leftmost, not overlapping; also right after a backslash) stays as it is; a
+   backslash protects the next character; every other curly bracket gets a backslash *)
+Definition is_quantifier_start (s : list N) : bool :=
+  match s with c :: r => (c =? 123) && (match quantifier_body r with Some _ => true | None => false end) | [] => false end.
+Fixpoint misused_rep (fuel : nat) (s : list N) : list N :=
   match fuel with
   | O => s
   | S f =>
@@ -58,52 +60,19 @@ Fixpoint mark_quantifiers (fuel : nat) (s : list N) : list N :=
     | c :: r =>
       if c =? 123 then
         match quantifier_body r with
-        | Some (inner, rest) => LT4 ++ inner ++ GT4 ++ mark_quantifiers f rest
-        | None => c :: mark_quantifiers f r
+        | Some (inner, rest) => [123] ++ inner ++ [125] ++ misused_rep f rest
+        | None => 92 :: 123 :: misused_rep f r
         end
-      else c :: mark_quantifiers f r
+      else if c =? 125 then 92 :: 125 :: misused_rep f r
+      else if c =? 92 then
+        match r with
+        | [] => [92]
+        | c2 :: r2 => if is_quantifier_start r then 92 :: misused_rep f r else 92 :: c2 :: misused_rep f r2
+        end
+      else c :: misused_rep f r
     end
   end.
-(* pass B2: a backslash protects the next character; every other curly bracket gets a backslash *)
-Fixpoint escape_curly (s : list N) : list N :=
-  match s with
-  | [] => []
-  | c :: r =>
-    if c =? 92 then match r with [] => [92] | c2 :: r2 => 92 :: c2 :: escape_curly r2 end
-    else if (c =? 123) || (c =? 125) then 92 :: c :: escape_curly r
-    else c :: escape_curly r
-  end.
-(* pass B3: `<<<<(.+?)>>>>` (shortest, at least one character, no line break) becomes `{...}` again *)
-Fixpoint pstarts (p l : list N) : bool :=
-  match p, l with [], _ => true | a :: p', b :: l' => (a =? b) && pstarts p' l' | _ :: _, [] => false end.
-(* the shortest non-empty prefix of s (without LF) that is followed by >>>> *)
-Fixpoint until_gt4 (s : list N) (acc_rev : list N) : option (list N * list N) :=
-  match s with
-  | [] => None
-  | c :: r =>
-    if c =? 10 then None
-    else if pstarts GT4 r then Some (rev (c :: acc_rev), skipn 4 r)
-    else until_gt4 r (c :: acc_rev)
-  end.
-Fixpoint restore_quantifiers (fuel : nat) (s : list N) : list N :=
-  match fuel with
-  | O => s
-  | S f =>
-    match s with
-    | [] => []
-    | c :: r =>
-      if pstarts LT4 s then
-        match until_gt4 (skipn 4 s) [] with
-        | Some (inner, rest) => [123] ++ inner ++ [125] ++ restore_quantifiers f rest
-        | None => c :: restore_quantifiers f r
-        end
-      else c :: restore_quantifiers f r
-    end
-  end.
-Definition misused_repetition (s : list N) : list N :=
-  let a := mark_quantifiers (S (length s)) s in
-  let b := escape_curly a in
-  restore_quantifiers (S (length b)) b.
+Definition misused_repetition (s : list N) : list N := misused_rep (S (length s)) s.
 
 (* pass C: escape_misused_character_class.  [class_closes_later prev rest]: is there, further on, an unescaped `]` before any
    unescaped `[` (actual_closing_index(..).is_some()) *)
